@@ -78,6 +78,9 @@ def check_filter(ctx, kp, d, agrid, E, inc, exc, k, case):
     c2 = dict(case, include=inc, exclude=exc)
     if k % 3 == 1:
         # a third of the selections also as the final category collection of a long-lived ExportOptions object (set, list or tuple)
+        # (a basic view first, then the extended one, through the same selection object)
+        ob, eb = kpx.dumps(d, encoding=kpx.Enc.bEkern, **kw)
+        kpx.shared_options_check(ctx, d, dict(kw, encoding=kpx.Enc.bEkern), ob, eb, c2)
         kpx.shared_options_check(ctx, d, dict(kw, encoding=kpx.Enc.eKern), out, err, c2)
     if err is not None:
         ctx.violation('filtered-export-raises', f'include={inc} exclude={exc}: {type(err).__name__}: {err}', c2)
